@@ -1,0 +1,6 @@
+//go:build !verif
+// +build !verif
+
+package numpin
+
+func verifGate(point string) {}
